@@ -70,6 +70,7 @@ package s3db
 //@   requires imp(k.Type == v1proto.Type_REAL, !isnan(k.Real))
 //@   requires imp(o2 != nil, typeis(o2, *Key) && o2.(*Key) != nil && o2.(*Key).SQLiteValue != nil && keyTyped(int(o2.(*Key).Type)))
 //@   requires imp(o2 != nil && o2.(*Key).Type == v1proto.Type_REAL, !isnan(o2.(*Key).Real))
+//@   model k.Type, k.Int, k.Real, k.Text, bytes(k.Blob), o2.(*Key).Type, o2.(*Key).Int, o2.(*Key).Real, o2.(*Key).Text, bytes(o2.(*Key).Blob)
 //@   ensures nilarg: imp(o2 == nil, result == 1)
 //@   ensures cmp: imp(o2 != nil, result == sqliteCmpAbs(absKey(k.SQLiteValue), absKey(o2.(*Key).SQLiteValue)))
 //@   modifies nothing
